@@ -74,9 +74,9 @@ CHECKS = {
    technique='Coq proof (decode/encode of the post-order array, structural induction on treespecs) + extracted-model correspondence',
    text='Theorems: flatten always yields the encoding of a well-formed structured treespec (decode . encode = id); children counts sum to the parent; '
         'child/entry follow Python index semantics with IndexError outside [-n, n); the root is rebuilt from one_level + children; compose multiplies leaves and preserves '
-        'well-formedness; transform(identity) is the identity and leaf replacement equals compose. The correspondence run compares every inspection method (counts, kind, type, '
+        'well-formedness; transform(identity) is the identity and leaf replacement equals compose; ARRAY LEVEL: the engine\'s backwards index walk over the node array (Children / Child: skip whole subtrees by num_nodes) returns exactly the arrays of the children of the structured treespec for every well-formed treespec, without reaching any of its internal-error checks (C08_array_children). The correspondence run compares every inspection method (counts, kind, type, '
         'paths, accessors, children, child(i) and entry(i) for all i in [-n-1, n], entries, one_level) and compose/transform/broadcast results (full node arrays) with the implementation.',
-   note=TB + 'The treespec algorithms are modelled at tree level (stree); the array layer is tied in by decode/encode theorems and by comparing full __getstate__ arrays, not by a refinement proof of each C++ index walk. treespec_* constructors and repr text are compared only through the harness.',
+   note=TB + 'The treespec algorithms are modelled at tree level (stree); the array layer is tied in by decode/encode theorems, by the refinement proof of the Children() walk (the step every other reverse walk repeats) and by comparing full __getstate__ arrays; the other C++ index walks (Paths, IsPrefix with its sibling re-ordering, Broadcast, FlattenUpTo) have no array-level refinement proof. treespec_* constructors and repr text are compared only through the harness.',
    design='§7 C08'),
  'C11': dict(
    technique='Coq proof (per-node conditions established by induction over flatten; load = inverse of dump under those conditions) + extracted-model correspondence with registry changes between dump and load',
